@@ -167,7 +167,16 @@ func (e *Env) eval(x ast.Expr) Value {
 			return S(Sub(IntLit(0), e.term(x.X)))
 		case token.AND:
 			if id, ok := x.X.(*ast.Ident); ok && e.F != nil {
-				if v, ok := e.F.Vars[id.Name]; ok && e.F.VarAddr[id.Name] {
+				name := id.Name
+				if _, ok := e.F.Vars[name]; !ok {
+					// same (type, ordinal) fall-back as a plain use of the name: a renamed local still binds
+					if al := e.S.X.Aliases[e.F.Fn]; al != nil {
+						if nn, ok := al[name]; ok {
+							name = nn
+						}
+					}
+				}
+				if v, ok := e.F.Vars[name]; ok && e.F.VarAddr[name] {
 					return v
 				}
 			}
